@@ -544,7 +544,7 @@ def b_contract(P, s, a, b, c, name):
     elif name == "bmm":
         pred = lambda v: is_ft(v) and v.ndim == 3 and v.numel() > 0  # noqa: E731
     else:
-        pred = lambda v: is_ft(v) and v.ndim >= 2 and v.numel() > 0  # noqa: E731
+        pred = lambda v: is_ft(v) and v.ndim >= 1 and v.numel() > 0  # noqa: E731  (a single vector is a legal operand of linear / matmul)
     i = P.pick(s[0], pred)
     if i is None:
         return None
